@@ -163,8 +163,11 @@ def check(rep, tier):
     fixedc = dict(arr="square", shape=(3, 3, 1), k={"int": 20, "ext": 20, "s0": 50, "s_sigma_rel": 0}, dt=10.0, T_init=None,
                   over={"snowfall_parameters": {"vial_arrangement": "square"}}, initIce="indirect", seed=5, seed_v=6,
                   prog=dict(start=5, end=-40, rate=1.0 / 60, holds=[{"duration": 1200, "temp": -8}], t_tot=5000.0, dt=10.0), cnTemp=-8, thr=0.9)
+    # second fixed corpus: the hold at the trigger temperature lasts until the END of the process (t_tot = ramp + hold exactly): the trigger is the
+    # last grid step, and it still forces every supercooled vial
+    fixedl = dict(fixedc, seed=8, seed_v=9, no_spontaneous=True, prog=dict(start=5, end=-40, rate=1.0 / 60, holds=[{"duration": 3600, "temp": -8}], t_tot=(5 + 8) * 60.0 + 3600.0, dt=10.0))
     for ri in range(6 if tier == "quick" else 60):
-        cfg = dict(fixedc) if ri == 0 else fr.gen_config(rng, max_vials=16, max_steps=500, cn=True)
+        cfg = dict(fixedc) if ri == 0 else (dict(fixedl) if ri == 1 else fr.gen_config(rng, max_vials=16, max_steps=500, cn=True))
         try:
             S, L = c03.lockstep_run(rep, cfg, rng)
         except Exception as e:
